@@ -4,6 +4,7 @@ import (
 	"encoding/json"
 	"fmt"
 	"os"
+	"sync"
 	"testing"
 )
 
@@ -62,6 +63,9 @@ func vfRun(h func()) (kind, msg string) {
 			}
 		}
 	}()
+	// real sync.Pools keep buffers of earlier replays; the engine starts every path with empty pools
+	bytesPool = sync.Pool{New: bytesPool.New}
+	bufPool = sync.Pool{New: bufPool.New}
 	h()
 	return "ok", ""
 }
